@@ -215,6 +215,21 @@ class Ctx:
         if status == 'known':
             self.known_hits[fid] = self.known_hits.get(fid, 0) + 1
         else:
+            if case is None:
+                # most call sites pass only the id: recover the input the caller was judging from its frame
+                # (a local named `case`, else `c`), so that the replay names a concrete failing input
+                fr = sys._getframe(1)
+                for _ in range(4):
+                    if fr is None:
+                        break
+                    loc = fr.f_locals
+                    cand = loc.get('case', loc.get('case0'))
+                    if isinstance(cand, dict):
+                        case = dict(cand, finding=fid)
+                        if detail is None:
+                            detail = loc.get('detail')
+                        break
+                    fr = fr.f_back
             self.failure(f'input matching finding {fid} (status {status or "unlisted"}: not a known finding) fails again',
                          case if case is not None else {'finding': fid}, detail)
 
